@@ -1,7 +1,7 @@
 """Registry entry, manifest texts for C06."""
 
 ENTRY = {'parts': [{'scenario': 'scenarios.s_pool', 'chunk': 6}],
-         'quick': {'runs': 2500, 'budget': 55}, 'thorough': {'runs': 150000, 'budget': 1200}}
+         'quick': {'runs': 2500, 'budget': 40}, 'thorough': {'runs': 150000, 'budget': 1200}}
 
 TEXT = {'level': 'Seeded search over soft/hard limit combinations x durations x scans: long jobs over many scan '
           'periods, programs that catch SoftTimeLimitExceeded and return. The kernel records every SIGUSR1 '
